@@ -187,7 +187,9 @@ func (s *sysB) enabled() []int {
 	w := s.w
 	for i := 1; i < len(w.parents); i++ {
 		p := w.parents[i]
-		if !s.hDone[i] && !s.bDone[i] && (p == 0 || s.hDone[p] || s.bDone[p]) {
+		// a header may also arrive after its own block (the index entry then
+		// exists already and the best-header view has not seen it yet)
+		if !s.hDone[i] && (p == 0 || s.hDone[p] || s.bDone[p]) {
 			out = append(out, 2*(i-1))
 		}
 	}
